@@ -106,3 +106,62 @@ def gen_restart(rng, tier):
                                                                                "req " + rm, "flush 100", "dump", "compact R", "restart R", "dump"]
             cases.append(Case("partial-%s-%d" % (add.split()[0], extra), ops, True, "boundary"))
     return cases
+
+
+def region_install_before_restart(case):
+    """known finding F10: the joiner is compared with the leader after an installation and before its restart"""
+    fresh = False
+    for o in case.ops:
+        if o.startswith("install"):
+            fresh = True
+        elif o == "restart N" or o == "crash N":
+            fresh = False
+        elif o == "dumpn" and fresh:
+            return True
+    return False
+
+
+def gen_install(rng, tier):
+    """C08: node N receives the leader's snapshot through create_snapshot / finalize_snapshot_installation - as a
+    first-time joiner (empty log) and as a node that fell behind (log and state below the snapshot) - then the
+    entries after it, and restarts"""
+    cases = []
+    big = tier == "thorough"
+    for i in range(200 if big else 30):
+        ops = ["start"]
+        ops += reqs(rng, rng.randrange(1, 25), only=rng.choice([None, None, "cfg", "ns", "tbl", "seq", "inst"]))
+        ops += ["flush 100", "compact L"]
+        behind = 0
+        for rnd in range(rng.randrange(1, 4)):
+            if rng.random() < 0.5:
+                n = rng.randrange(1, 12)
+                ops += reqs(rng, n) + ["flush 100"]
+                behind += n
+                if rng.random() < 0.5:
+                    ops.append("compact L")
+                    # the snapshot now covers everything
+            r = rng.random()
+            if r < 0.7:
+                ops.append("install L N")
+                if ops[-2] == "compact L":
+                    behind = 0
+                if behind or rng.random() < 0.3:
+                    ops.append("catchup " + splits(rng, max(behind, 1)))
+                    behind = 0
+                ops += [rng.choice(["restart N", "restart N", "crash N"]), "dumpn"]
+            else:
+                ops += ["catchup " + splits(rng, max(behind, 1))]
+                behind = 0
+                if not region_install_before_restart(Case("x", ops + ["dumpn"])):
+                    ops.append("dumpn")
+                ops += ["restart N", "dumpn"]
+        cases.append(Case("install-%d" % i, ops, True, "random"))
+    # directed: first-time joiner that applies nothing after the installation; a joiner that fell behind
+    d1 = ["start", "req cfgset 1 1", "req nsset 1 1", "req tblset 0 1", "flush 10", "compact L", "install L N", "restart N", "dumpn",
+          "restart N", "dumpn"]
+    d2 = ["start", "req cfgset 1 1", "req cfgset 2 2", "flush 10", "compact L", "install L N", "catchup 1", "restart N", "dumpn",
+          "req cfgset 3 3", "req cfgrm 1 0", "req cfgset 4 4", "flush 10", "compact L", "req cfgset 5 5", "flush 10",
+          "install L N", "catchup 1", "restart N", "dumpn", "req cfgset 6 6", "flush 1", "catchup 1", "restart N", "dumpn"]
+    cases.append(Case("install-first-joiner", d1, True, "boundary"))
+    cases.append(Case("install-fell-behind", d2, True, "boundary"))
+    return cases
